@@ -7,7 +7,7 @@ spec/AssetRange (+_MC, _Gen, _Trace).  Stages:
      every (case, response) pair is judged by the TLA+ contract AssetRange!Allowed (AssetRange_Trace).
   3. binding self-test: perturbed copies of accepted pairs must all be rejected by the contract.
 """
-import json, os, random
+import json, os, random, re
 from concurrent.futures import ThreadPoolExecutor
 import vf
 
@@ -38,45 +38,114 @@ def _tlc_jobs(sd, jobs):
 def _describe(rec):
     i, o = rec["in"], rec["out"]
     rng = i["range"]["text"] if i["range"]["shape"] != "none" else "(no Range)"
-    body = bytes(b & 255 for b in o["body"][:60])
-    return ("%s %s Range: %s minify=%s prime=%s => status %s Content-Range=%r Content-Length=%r body=%r%s"
-            % (i["method"], i["path"]["url"], rng, i["min"], i["prime"] or "-", o["status"], o["cr"], o["cl"], body,
+    if o.get("big"):
+        body = "<%d bytes in %d runs: %s%s>" % (sum(n for _, n in o["rle"]), len(o["rle"]), o["rle"][:4], "..." if len(o["rle"]) > 4 else "")
+    else:
+        body = repr(bytes(b & 255 for b in o["body"][:60]))
+    return ("%s%s %s Range: %s minify=%s prime=%s => status %s Content-Range=%r Content-Length=%r body=%s%s"
+            % ("[concurrent, GOMAXPROCS=%s] " % rec.get("gomaxprocs") if rec.get("stage") == "conc" else "",
+               i["method"], i["path"]["url"], rng, i["min"], i["prime"] or "-", o["status"], o["cr"], o["cl"], body,
                " (handler panicked)" if o["panicked"] else ""))
+
+
+_DECL = re.compile(r"^\s*(?:const\s+|var\s+)?([A-Za-z_]\w*)(?:\s+u?int(?:8|16|32|64)?)?\s*=\s*([0-9][0-9_ \t*+()<]*?)\s*(?://.*)?$", re.M)
+
+
+def _read_limits():
+    """Size constants of the asset handler, read from the source of the tree under test: every const/var of
+    handler.go / cache.go with an integer initialiser >= 1 KiB, and thresholds derived from one of them by a
+    literal factor (name/2, name*2).  Nothing is hard-coded here."""
+    found = {}
+    srcs = []
+    for fn in ("handler.go", "cache.go"):
+        pth = os.path.join(vf.REPO, "internal/server/assets", fn)
+        if os.path.exists(pth):
+            srcs.append(open(pth).read())
+    for src in srcs:
+        for m in _DECL.finditer(src):
+            expr = m.group(2).replace("_", "")
+            if not re.fullmatch(r"[0-9 \t*+()<]+", expr):
+                continue
+            try:
+                v = int(eval(expr, {"__builtins__": {}}, {}))
+            except Exception:
+                continue
+            if 1024 <= v < 2 ** 30:
+                found[m.group(1)] = v
+    derived = set()
+    for src in srcs:
+        for name, v in found.items():
+            for m in re.finditer(r"\b%s\s*([/*])\s*(\d+)\b" % re.escape(name), src):
+                d = int(m.group(2))
+                w = v // d if m.group(1) == "/" and d else v * d
+                if 1024 <= w < 2 ** 30:
+                    derived.add(w)
+    lim = sorted(set(found.values()) | derived)
+    if not lim:
+        raise vf.NoVerdict("no size constant found in internal/server/assets/{handler,cache}.go: the reading of the source no longer works")
+    return lim, found
 
 
 def run():
     thorough = vf.TIER == "thorough"
     sfx = "_wide" if thorough else ""
     chk = vf.Check(PROP)
-    # several small JVMs run side by side: keep each one's helper threads few
-    os.environ.setdefault("JAVA_TOOL_OPTIONS", "-XX:ParallelGCThreads=2 -XX:CICompilerCount=2")
+    # several small JVMs run side by side: keep each one's helper threads few; deep (non-tail) recursion over run lists
+    os.environ.setdefault("JAVA_TOOL_OPTIONS", "-XX:ParallelGCThreads=2 -XX:CICompilerCount=2 -Xss16m")
     replay = os.environ.get("VERIF_REPLAY")
     chk.assumptions += [
         "minification and Markdown rendering are an oracle: the real javascript.Minify / MinifyCSS / mdToHTML applied to the whole raw file (their correctness is C19/C33/C34's subject)",
-        "requests are parsed by net/http.ReadRequest from the literal request line and served by Router.ServeHTTP into an httptest recorder (no TCP); a panic is observed by a wrapper around AssetsHandler that re-panics",
-        "the minify setting is constant within a history; the asset cache is flushed before each case and filled only by the priming GET",
+        "requests are parsed by net/http.ReadRequest from the literal request line and served by Router.ServeHTTP into an httptest recorder (thorough and the concurrent stage: a real net/http server on loopback); a panic is observed by a wrapper around AssetsHandler that re-panics",
+        "the minify setting is constant within a history; sequential stage: the asset cache is flushed before each case and filled only by the priming GET",
+        "concurrent stage: real schedules are sampled (8 clients, several GOMAXPROCS values, the ResponseWriter given to the handler yields the processor at every call); every interleaving of the handler's phases is explored on the model only",
         "path resolution is lexical below the root (the handler cleans the path before touching the file system); symbolic links are followed one level as built by the fixture",
         "Range header values above 2^31 are represented by the literal texts 2^63-1, 2^63, 2^64 and the token Big in the contract",
+        "size constants are read from handler.go / cache.go of the tree under test; a limit that is not an integer constant there (or lives in another file) is not represented in the fixture",
     ]
+    limits, names = _read_limits()
+    chk.cov["size_constants"] = {"limits": limits, "declared": names}
+    limtxt = "  Limits = {%s}" % ", ".join(str(v) for v in limits)
+
+    def cfg(name):
+        txt = open(os.path.join(vf.VERIF, "spec", SPEC, name)).read()
+        txt2 = re.sub(r"^  Limits = .*$", limtxt, txt, flags=re.M)
+        if txt2 == txt and limtxt not in txt:
+            raise vf.NoVerdict("cfg %s has no Limits line" % name)
+        return {name: txt2}
+
     with vf.scratch(prefix="c39-") as sd:
         # ---- 1. model checking + negative controls + case generation, concurrently
         w = 4 if thorough else 2
         jobs = {
             "mc": dict(module="AssetRange_MC", cfg="AssetRange_MC%s.cfg" % sfx, workers=w, timeout=1500),
+            "conc": dict(module="AssetConc", cfg="AssetConc_large.cfg" if thorough else "AssetConc.cfg", workers=w, timeout=1500),
             "neg_NoPanic": dict(module="AssetRange_MC", cfg="AssetRange_MC_asis_NoPanic.cfg", workers=1, timeout=900),
             "neg_Exact": dict(module="AssetRange_MC", cfg="AssetRange_MC_asis_Exact.cfg", workers=1, timeout=900),
             "neg_NoOutside": dict(module="AssetRange_MC", cfg="AssetRange_MC_asis_NoOutside.cfg", workers=1, timeout=900),
+            "neg_trunc": dict(module="AssetRange_MC", cfg="AssetRange_MC_trunc_Exact.cfg", workers=1, timeout=900),
+            "neg_pool": dict(module="AssetConc", cfg="AssetConc_pool.cfg", workers=1, timeout=900),
             "gen": dict(module="AssetRange_Gen", cfg="AssetRange_Gen%s.cfg" % sfx, workers=1, timeout=1500),
         }
+        if thorough:
+            jobs["conc3"] = dict(module="AssetConc", cfg="AssetConc_3.cfg", workers=w, timeout=1500)
+        for kw in jobs.values():
+            kw["files"] = cfg(kw["cfg"])
         res = _tlc_jobs(sd, jobs)
         vf.tlc_ok(res["mc"], "AssetRange MC (design)")
         chk.add_tlc(res["mc"], "MC design variant: NoPanic NoOutside Exact Conforms")
-        for inv in ("NoPanic", "Exact", "NoOutside"):
-            rn = res["neg_" + inv]
+        vf.tlc_ok(res["conc"], "AssetConc MC (design, interleaved requests)")
+        chk.add_tlc(res["conc"], "MC concurrent design: ConcConforms over all interleavings of 2 requests")
+        if thorough:
+            vf.tlc_ok(res["conc3"], "AssetConc MC (3 requests)")
+            chk.add_tlc(res["conc3"], "MC concurrent design: 3 requests")
+        for job, inv, what in (("neg_NoPanic", "NoPanic", "as-is"), ("neg_Exact", "Exact", "as-is"), ("neg_NoOutside", "NoOutside", "as-is"),
+                               ("neg_trunc", "Exact", "reads capped at a size constant"),
+                               ("neg_pool", "ConcConforms", "read buffer recycled while the handler holds the slice")):
+            rn = res[job]
             if rn.violated != inv:
-                raise vf.NoVerdict("negative control: the as-is model did not violate %s (violated=%s error=%s)"
-                                   % (inv, rn.violated, (rn.error or "")[:300]))
-            chk.add_tlc(rn, "negative control: as-is variant violates %s" % inv, count_states=False)
+                raise vf.NoVerdict("negative control: the %s model did not violate %s (violated=%s error=%s)"
+                                   % (what, inv, rn.violated, (rn.error or "")[:300]))
+            chk.add_tlc(rn, "negative control: %s variant violates %s" % (what, inv), count_states=False)
         rg = res["gen"]
         if rg.violated or rg.error or rg.rc != 0:
             raise vf.NoVerdict("case generation failed: %s %s\n%s" % (rg.violated, rg.error, rg.stdout[-2000:]))
@@ -85,6 +154,9 @@ def run():
         cases = [r for r in rg.records if isinstance(r, dict) and "path" in r]
         if len(fixture) != 1 or len(cases) != rg.distinct or not cases:
             raise vf.NoVerdict("generator output incomplete: %d fixture records, %d cases, %d states" % (len(fixture), len(cases), rg.distinct))
+        fx = fixture[0]["fixture"]
+        if not fx["bigfiles"] or max(f["size"] for f in fx["bigfiles"]) <= max(limits):
+            raise vf.NoVerdict("fixture has no asset above the largest size constant")
         rng = random.Random(vf.SEED)
         rng.shuffle(cases)          # execution order must not matter (cache flushed per case); the seed varies it
         if replay:                  # --replay <file>: only the recorded case (it must still be a case of the spec)
@@ -93,6 +165,11 @@ def run():
             if not cases:
                 raise vf.NoVerdict("the replay file's input is not a case of the current domain (tier %s)" % vf.TIER)
         cf = vf.write_ndjson(os.path.join(sd, "cases.ndjson"), fixture + cases)
+        # concurrent stage: the cold-cache cases of the small assets, all spellings, in the seed's order
+        conc = [] if replay else [c for c in cases if c["prime"] == "" and c["path"]["cls"] != "big"]
+        ccf = vf.write_ndjson(os.path.join(sd, "conc.ndjson"), conc)
+        gmps = "1,2,4,8,16,1,3" if thorough else "1,4"
+        nconc = len(conc) * len(gmps.split(","))
 
         # ---- 2. execute on the real handler (thorough: also behind a real net/http server on loopback)
         # private accelerator cache: the shared one is pruned by concurrent checks of other trees (seen: a generated
@@ -102,18 +179,27 @@ def run():
         for mode in (("recorder", "wire") if thorough else ("recorder",)):
             io = os.path.join(sd, "io-%s.ndjson" % mode)
             reps = os.path.join(sd, "reps.json")
+            withconc = mode == "recorder" and conc
             p = vf.run_harness(sd, ov, "./internal/server/assets/", "TestVerifC39",
                                {"VERIF_IN": cf, "VERIF_OUT": io, "VERIF_REPS": reps, "EGO_DEFAULT_LOGGING": "",
-                                "VERIF_WIRE": "1" if mode == "wire" else "0"},
-                               timeout=900, expect_out=io)
+                                "VERIF_WIRE": "1" if mode == "wire" else "0",
+                                "VERIF_IN_CONC": ccf if withconc else "", "VERIF_CONC": gmps, "VERIF_CONC_CLIENTS": "8"},
+                               timeout=1500, expect_out=io)
             if p.returncode != 0 or not os.path.exists(reps):
                 raise vf.NoVerdict("harness failed (rc=%d)\n%s\n%s" % (p.returncode, p.stdout[-3000:], p.stderr[-2000:]))
             recs = vf.read_ndjson(io)
-            if len(recs) != len(cases) or any(a["in"] != b for a, b in zip(recs, cases)):
-                raise vf.NoVerdict("harness executed %d of %d cases (or echoed a different input)" % (len(recs), len(cases)))
+            want_n = len(cases) + (nconc if withconc else 0)
+            if len(recs) != want_n or any(a["in"] != b for a, b in zip(recs, cases)):
+                raise vf.NoVerdict("harness executed %d of %d cases (or echoed a different input)" % (len(recs), want_n))
+            if withconc:
+                crecs = recs[len(cases):]
+                if any(r.get("stage") != "conc" for r in crecs) or \
+                   sorted(json.dumps(r["in"], sort_keys=True) for r in crecs) != sorted(json.dumps(c, sort_keys=True) for c in conc for _ in gmps.split(",")):
+                    raise vf.NoVerdict("concurrent stage did not execute exactly the given cases once per GOMAXPROCS value")
+                chk.cov["concurrent_pairs"] = len(crecs)
+                chk.cov["concurrent_rounds"] = "GOMAXPROCS %s, 8 clients, yielding ResponseWriter" % gmps
             # vacuity guards on the driver (not verdicts): the oracle really transforms, every answer class occurs
             rp = json.load(open(reps))
-            fx = fixture[0]["fixture"]
             for fid, fld in (("j", "min"), ("c", "min"), ("m", "html")):
                 if rp[fid][fld] == fx["raw"][fid] or not rp[fid][fld]:
                     raise vf.NoVerdict("oracle does not transform file %s (%s == raw): the fixture no longer separates the representations" % (fid, fld))
@@ -122,14 +208,19 @@ def run():
                 hist[r["out"]["status"]] = hist.get(r["out"]["status"], 0) + 1
             if not replay and (not hist.get(200) or not hist.get(206) or not any(400 <= s < 500 for s in hist)):
                 raise vf.NoVerdict("degenerate run: status histogram %s" % hist)
+            if not replay and not any(r["out"]["big"] and r["out"]["status"] == 206 for r in recs):
+                raise vf.NoVerdict("degenerate run: no ranged answer longer than 256 bytes (big assets not exercised)")
             chk.cov["status_histogram_" + mode] = {str(k): v for k, v in sorted(hist.items())}
 
             # ---- 3. the contract judges every pair
-            n, bad = vf.fio_validate(chk, SPEC, "AssetRange_Trace", "AssetRange_Trace%s.cfg" % sfx, sd, io,
-                                     name="contract Allowed over real responses (%s)" % mode, extra_files={"reps.json": reps}, timeout=1500)
+            tcfg = "AssetRange_Trace%s.cfg" % sfx
+            xf = {"reps.json": reps}
+            xf.update(cfg(tcfg))
+            n, bad = vf.fio_validate(chk, SPEC, "AssetRange_Trace", tcfg, sd, io,
+                                     name="contract Allowed over real responses (%s)" % mode, extra_files=xf, timeout=1500)
             if n != len(recs):
                 raise vf.NoVerdict("contract saw %d of %d records" % (n, len(recs)))
-            if any(b["key"] == "not-a-case" for b in bad):
+            if any(b["key"].startswith("not-a-case") for b in bad):
                 raise vf.NoVerdict("the log contains inputs outside the spec's domain (WF failed)")
             badidx = {b["idx"] for b in bad}
             for b in sorted(bad, key=lambda b: b["idx"]):
@@ -171,21 +262,28 @@ def run():
         r = pick(lambda r: r["out"]["status"] >= 400 and r["in"]["path"]["cls"] == "escape")
         m = json.loads(json.dumps(r)); m["out"]["status"] = 200; m["out"]["body"] = [1, 2, 3, 4]; muts.append(("escape path answered with the outside file", m))
         m = json.loads(json.dumps(r)); m["out"]["status"] = 200; m["out"]["body"] = fx["raw"]["a"]; muts.append(("escape path answered 200", m))
+        r = pick(lambda r: r["out"]["status"] == 206 and r["in"]["method"] == "GET" and r["out"]["big"] and len(r["out"]["rle"]) >= 2)
+        m = json.loads(json.dumps(r)); m["out"]["rle"][-1][1] -= 1; m["out"]["cl"] = str(int(m["out"]["cl"]) - 1); muts.append(("long 206 body one byte short (Content-Length adjusted)", m))
+        m = json.loads(json.dumps(r)); m["out"]["rle"][0][1] -= 1; m["out"]["rle"][-1][1] += 1; muts.append(("long 206 body shifted by one byte", m))
+        m = json.loads(json.dumps(r)); m["stage"] = "conc"; m["out"]["rle"][0][0] ^= 1; muts.append(("long 206 body with a foreign first run, concurrent stage", m))
         m = json.loads(json.dumps(good[0])); m["in"]["range"] = dict(m["in"]["range"], text="bytes=7-7-7-7"); muts.append(("input outside the domain", m))
         st = vf.write_ndjson(os.path.join(sd, "selftest.ndjson"), [m for _, m in muts])
-        n2, bad2 = vf.fio_validate(chk, SPEC, "AssetRange_Trace", "AssetRange_Trace%s.cfg" % sfx, sd, st, name=None,
-                                   extra_files={"reps.json": reps}, timeout=600)
+        n2, bad2 = vf.fio_validate(chk, SPEC, "AssetRange_Trace", tcfg, sd, st, name=None, extra_files=xf, timeout=600)
         got = {b["idx"]: b["key"] for b in bad2}
         missed = [nm for k, (nm, _) in enumerate(muts) if (k + 1) not in got]
         if n2 != len(muts) or missed:
             raise vf.NoVerdict("binding self-test failed: perturbed pairs accepted by the contract: %s" % missed)
+        if not got[len(muts) - 1].endswith("/concurrent"):
+            raise vf.NoVerdict("binding self-test failed: concurrent-stage pair not keyed as such (%s)" % got[len(muts) - 1])
         if got[len(muts)] != "not-a-case":
             raise vf.NoVerdict("binding self-test failed: out-of-domain input not recognised (%s)" % got[len(muts)])
         chk.cov["binding_selftest"] = "%d perturbed pairs all rejected: %s" % (len(muts), "; ".join("%s -> %s" % (nm, got[k + 1]) for k, (nm, _) in enumerate(muts)))
 
         chk.cov["cases"] = len(cases)
-        chk.cov["rule"] = ("cases = every element of AssetRange!Cases (path spellings x Range table relative to the named file's size x "
-                           "GET/HEAD x minify x cache history), each executed once on the real handler and judged by AssetRange!Allowed; "
-                           "states/transitions = the design model checked exhaustively over the same domain with histories of length <= 2")
+        chk.cov["rule"] = ("cases = every element of AssetRange!Cases (path spellings x Range table relative to the named file's size and, for "
+                           "the assets just above the handler's size constants, to those constants x GET/HEAD x minify x cache history), each "
+                           "executed once on the real handler; concurrent pairs = the cold-cache cases issued again by 8 overlapping clients per "
+                           "GOMAXPROCS value; every pair judged by AssetRange!Allowed; states/transitions = the design model checked exhaustively "
+                           "over the same domain with histories of length <= 2, plus all interleavings of the phases of 2 (thorough: 3) requests")
         chk.cov["exhaustive"] = True
     return chk.finish()
